@@ -19,6 +19,8 @@ variable {α : Type}
 /-- one safe public operation on an owned array, with arbitrary (valid or invalid) arguments -/
 inductive HOp (α : Type)
   | fromVec (c r : Nat) (v : List α)                          -- `t = TooDee::from_vec(c, r, v)` (rejected: `t` unchanged, `v` dropped)
+  | newArr (c r : Nat) (d : α)                                -- `t = TooDee::new(c, r)` (`d` = `T::default()`)
+  | initArr (c r : Nat) (v : α)                               -- `t = TooDee::init(c, r, v)`
   | insertRow (i : Nat) (it : IterScript α) (spare : List α)  -- any iterator script; `spare` = the cells `reserve` provided
   | insertCol (i : Nat) (it : IterScript α) (spare : List α)
   | removeRow (i : Nat) (w : List Bool)                       -- the drain is consumed along `w` (true = `next`, false = `next_back`), then dropped
@@ -29,7 +31,7 @@ inductive HOp (α : Type)
   | removeColLeak (i : Nat) (w : List Bool)
   | clear
   | swapDimensions
-  | capacityCall                                              -- reserve / reserve_exact / shrink_to_fit / capacity
+  | capacityCall (additional : Option Nat)                    -- `reserve(k)` / `reserve_exact(k)` (`some k`); `shrink_to_fit` / `capacity` (`none`)
   | takeInto (k : Nat)                                        -- `mem::take(&mut t).into_iter()`, `k` items pulled, the rest dropped with
                                                               --   the iterator (`into_vec` / `into_box`: everything handed over)
   | inplace (op : MOp α)                                      -- every `TooDeeOpsMut` / `CopyOps` / `SortOps` / `TranslateOps` method and
@@ -68,6 +70,8 @@ def TD.withData (t : TD α) (r : Res (List α)) : TD α :=
 /-- the array after one operation (Impl-model) -/
 def hstep (e : HEnv) (t : TD α) : HOp α → TD α
   | .fromVec c r v => match TD.fromVec c r v with | .ok t' => t' | .error _ => t
+  | .newArr c r d => match TD.new e.cap c r d with | .ok t' => t' | .error _ => t
+  | .initArr c r v => match TD.init e.cap c r v with | .ok t' => t' | .error _ => t
   | .insertRow i it spare => (t.insertRow e.m e.cap i it spare).t
   | .insertCol i it spare => (t.insertCol e.m e.cap i it spare).t
   | .removeRow i w => match t.removeRow e.m i with | .ok d => (d.run w).2.drop.1 | .error _ => t
@@ -93,7 +97,7 @@ def hstep (e : HEnv) (t : TD α) : HOp α → TD α
     | .error _ => t
   | .clear => t.clear
   | .swapDimensions => t.swapDimensions
-  | .capacityCall => t
+  | .capacityCall _ => t
   | .takeInto _ => TD.default
   | .inplace op => t.withData ((Recv.root t).run e.m e.lim t.data op)
   | .viaView s e' ops =>
@@ -104,6 +108,8 @@ def hstep (e : HEnv) (t : TD α) : HOp α → TD α
 /-- the outcome the caller sees -/
 def hres (e : HEnv) (t : TD α) : HOp α → Res Unit
   | .fromVec c r v => (TD.fromVec c r v).map fun _ => ()
+  | .newArr c r d => (TD.new e.cap c r d).map fun _ => ()
+  | .initArr c r v => (TD.init e.cap c r v).map fun _ => ()
   | .insertRow i it spare => (t.insertRow e.m e.cap i it spare).res
   | .insertCol i it spare => (t.insertCol e.m e.cap i it spare).res
   | .removeRow i _ | .removeRowLeak i _ => (t.removeRow e.m i).map fun _ => ()
@@ -114,7 +120,8 @@ def hres (e : HEnv) (t : TD α) : HOp α → Res Unit
     match ← t.popCol e.m with
     | some d => do let (_, d') ← d.run e.m w; let _ ← d'.drop e.m; pure ()
     | none => pure ()
-  | .clear | .swapDimensions | .capacityCall | .takeInto _ => pure ()
+  | .capacityCall (some k) => if reserveOk e.cap t.data.length k then pure () else throw .panic      -- "capacity overflow"
+  | .clear | .swapDimensions | .capacityCall none | .takeInto _ => pure ()
   | .inplace op => ((Recv.root t).run e.m e.lim t.data op).map fun _ => ()
   | .viaView s e' ops => do
     let v ← VW.fromTooDee e.m s e' t
@@ -168,6 +175,29 @@ def gstepM (g : List (List α)) : MOp α → Option (List (List α))
       | .error _ => some g
     else some g
 
+/-- the plain model accepts the call: its arguments are valid and the caller code inside a sort does not panic -/
+def MOp.gok (g : List (List α)) : MOp α → Bool
+  | .set c r _ | .setInRow r c _ => decide (c < gcols g ∧ r < g.length)
+  | .fill _ | .flipRows | .flipCols => true
+  | .swap c1 r1 c2 r2 => decide (c1 < gcols g ∧ c2 < gcols g ∧ r1 < g.length ∧ r2 < g.length)
+  | .swapRows r1 r2 => decide (r1 < g.length ∧ r2 < g.length)
+  | .swapCols c1 c2 => decide (c1 < gcols g ∧ c2 < gcols g)
+  | .copyFromSlice src => decide (gcols g * g.length = src.length)
+  | .copyFromTooDee src =>
+    match src.grid? with
+    | some sg => decide (sg.length = g.length ∧ gcols sg = gcols g)
+    | none => false
+  | .copyWithin tl br dest => decide (rectsFit (gcols g) g.length tl br dest)
+  | .translate mc mr => decide (mc ≤ gcols g ∧ mr ≤ g.length)
+  | .sortRow side row => decide (row < g.length) && (match side (g[row]?.getD []) with | .ok _ => true | .error _ => false)
+  | .sortCol side col => decide (col < gcols g) && (match side (g.filterMap (·[col]?)) with | .ok _ => true | .error _ => false)
+
+/-- a block of calls on one receiver in the plain model: the first call that is not accepted ends the block (its panic propagates
+    out of the caller's block); what the earlier calls did stays -/
+def gblock : List (List α) → List (MOp α) → Option (List (List α))
+  | g, [] => some g
+  | g, op :: ops => if op.gok g then (gstepM g op).bind fun g' => gblock g' ops else some g
+
 /-- the plain model's step (`none`: an iterator script that panics or lies about its length — the property leaves the outcome of
     those open beyond "a valid array", C11 — or a side sort that broke its contract) -/
 def gstep (g : List (List α)) : HOp α → Option (List (List α))
@@ -196,9 +226,10 @@ def gstep (g : List (List α)) : HOp α → Option (List (List α))
   | .removeRowLeak i _ => if i < g.length then some (g.take i) else some g    -- the rows before `i` survive
   | .removeColLeak i _ => if i < gcols g then some [] else some g             -- nothing survives
   | .clear => some []
-  | .capacityCall => some g
+  | .capacityCall _ => some g
   | .takeInto _ => some []
   | .fromVec c r v => if specShapeOk c r ∧ c * r = v.length then some (toRows c v) else some g
+  | .newArr c r d | .initArr c r d => if specShapeOk c r then some (toRows c (List.replicate (c * r) d)) else some g
   | .swapDimensions => some (toRows g.length g.flatten)          -- same cells, rows of the old `num_rows` cells each
   | .inplace op => gstepM g op
   | .viaView s e ops =>
@@ -206,7 +237,7 @@ def gstep (g : List (List α)) : HOp α → Option (List (List α))
       -- cut the window out, run the block on it as on an array of its own, put the result back
       let sz := viewSize s e
       let sub := gridOf sz.1 sz.2 fun c r => gcell g (s.1 + c) (s.2 + r)
-      (ops.foldlM gstepM sub).map fun sub' =>
+      (gblock sub ops).map fun sub' =>
         gridOf (gcols g) g.length fun c r =>
           if s.1 ≤ c ∧ c < s.1 + sz.1 ∧ s.2 ≤ r ∧ r < s.2 + sz.2 then gcell sub' (c - s.1) (r - s.2) else gcell g c r
     else some g
@@ -225,7 +256,13 @@ def HOp.fits (e : HEnv) (t : TD α) : HOp α → Prop
   | .inplace (.sortRow _ _) => t.numCols ≤ e.lim
   | .inplace (.sortCol _ _) => t.numRows ≤ e.lim
   | .inplace op => op.srcOk
-  | .viaView s e' ops => hres e t (.viaView s e' ops) = .ok ()      -- the block ran to its end (the plain model has no panics)
+  | .viaView s e' ops =>                                          -- a sorted line of the window fits the side table
+    ∀ op ∈ ops, match op with
+      | .sortRow _ _ => (viewSize s e').1 ≤ e.lim
+      | .sortCol _ _ => (viewSize s e').2 ≤ e.lim
+      | _ => True
+  | .newArr c r _ | .initArr c r _ => c * r ≤ e.cap               -- the plain model has no capacity
+  | .capacityCall (some k) => t.data.length + k ≤ e.cap
   | _ => True
 
 def hfits (e : HEnv) : TD α → List (HOp α) → Prop
@@ -318,6 +355,12 @@ def vflowRun (m : Mode) (lim : Nat) (v : VW) : List α → List (MOp α) → Flo
 /-- the elements one operation takes from the caller and the elements that leave the array during it -/
 def hflow (e : HEnv) (t : TD α) : HOp α → Flow α
   | .fromVec c r v => match TD.fromVec c r v with | .ok _ => { supplied := v, dropped := t.data } | .error _ => { supplied := v, dropped := v }
+  | .newArr c r d => match TD.new e.cap c r d with | .ok t' => { supplied := t'.data, dropped := t.data } | .error _ => {}
+  | .initArr c r v =>
+    -- `vec![v; n]`: `n-1` clones and `v` itself; `vec![v; 0]` (and a rejected call) drops `v`
+    match TD.init e.cap c r v with
+    | .ok t' => { supplied := t'.data ++ (if t'.data.length = 0 then [v] else []), dropped := t.data ++ (if t'.data.length = 0 then [v] else []) }
+    | .error _ => { supplied := [v], dropped := [v] }
   | .insertRow i it spare =>
     let o := t.insertRow e.m e.cap i it spare
     { supplied := it.events.filterMap id, handed := o.rest.filterMap id, leaked := o.leaked }
